@@ -10,7 +10,7 @@
   with the default) is tied by the correspondence run over sampled configurations.
 -/
 import JP.Lemmas.TokenCfg
-import JP.Lex
+import JP.Lemmas.LexSpell
 namespace JP.Props.C17
 open JP JP.Query JP.TokenCfg JP.Lemmas
 
@@ -63,7 +63,37 @@ theorem values_independent_of_tokens (e1 e2 : Env) (h : SameButTokens e1 e2) (se
     (evalSegs e1 segs ns1).map (·.val) = (evalSegs e2 segs ns2).map (·.val) :=
   Lemmas.values_independent_of_tokens e1 e2 h segs ns1 ns2 hv
 
+/-! ## End to end, at the character level
+
+`Lex.ValidSpell sp`: the eight spellings are non-empty, pairwise distinct, made of the symbol characters
+`$ @ # _ ~ ^ % + | &`, none beginning like the fixed `&&` / `||`. One may be a prefix of another. -/
+
+/-- **The lexer of an environment reads that environment's own text back as the same tokens**, whatever valid
+    spellings are configured: the text `str()` produces under `sp` lexes, in the environment with spellings `sp`,
+    to exactly the tokens of the query — the tokens do not mention the spellings. -/
+theorem printed_text_lexes_under_any_spelling (uw : Char → Bool) (sp : Lex.Spell) (hv : Lex.ValidSpell sp = true) (p : Path)
+    (h : Lex.printableSegs p.segs = true) :
+    Lex.tokenize ⟨sp, uw⟩ (Lex.pstrPath sp p) = .ok ((Surface.ptoksPath p).map Lex.CTok.tok) :=
+  Lemmas.tokenize_pstrPath_spell uw sp hv p h
+
+theorem printed_compound_lexes_under_any_spelling (uw : Char → Bool) (sp : Lex.Spell) (hv : Lex.ValidSpell sp = true) (c : Compound)
+    (h0 : Lex.printableSegs c.first.segs = true) (hr : ∀ x ∈ c.rest, Lex.printableSegs x.2.segs = true) :
+    Lex.tokenize ⟨sp, uw⟩ (Lex.pstrCompound sp c) = .ok (Lex.ptoksCompound c) :=
+  Lemmas.tokenize_pstrCompound_spell uw sp hv c h0 hr
+
+/-- **Renaming does not change what a query means**: the same query, written in the spellings of two valid
+    configurations and compiled in the respective environments (lexer model, literal decoding, parser model),
+    is the same compiled query — hence (with `values_independent_of_tokens`) selects the same values. -/
+theorem renaming_preserves_query (pr : Surface.Prec) (hpr : Surface.precOK pr = true) (uw : Char → Bool)
+    (sp1 sp2 : Lex.Spell) (h1 : Lex.ValidSpell sp1 = true) (h2 : Lex.ValidSpell sp2 = true) (p : Path)
+    (hp : Surface.parsedSegs p.segs = true) (h : Lex.printableSegs p.segs = true) :
+    Lex.compileText pr ⟨sp1, uw⟩ (Lex.pstrPath sp1 p) = Lex.compileText pr ⟨sp2, uw⟩ (Lex.pstrPath sp2 p) ∧
+    Lex.compileText pr ⟨sp1, uw⟩ (Lex.pstrPath sp1 p) = some ⟨Surface.normSegs p.segs, p.fake⟩ := by
+  rw [Lemmas.compileText_pstrPath_spell pr hpr uw sp1 h1 p hp h, Lemmas.compileText_pstrPath_spell pr hpr uw sp2 h2 p hp h]
+  exact ⟨rfl, rfl⟩
+
 /-! ### Non-vacuity -/
+example : Lex.ValidSpell { Lex.dflt with root := "$$".toList, fakeRoot := "$".toList, keys := "~~".toList, fctx := "__".toList, union := "%".toList } = true := by decide
 example : lexEnv [(.root, "$".toList), (.self, "@".toList), (.fakeRoot, "$$".toList)] "$$.a".toList = some (.fakeRoot, ".a".toList) := by decide
 example : lexEnv [(.root, "$".toList), (.self, "@".toList), (.fakeRoot, "$$".toList)] "$.a".toList = some (.root, ".a".toList) := by decide
 
